@@ -9,7 +9,8 @@ Local Open Scope N_scope.
 Inductive exn :=
 | FileNotFound        (* GopherExceptions.FileNotFound *)
 | IOErr               (* OSError / IOError *)
-| IndexError | ValueError | TypeError.
+| IndexError | ValueError | TypeError
+| Blocked.            (* not an exception: the call never returns (open() of a FIFO nobody writes to) *)
 
 Inductive result (A : Type) := Ok (a : A) | Raise (e : exn).
 Arguments Ok {A} a.
@@ -21,7 +22,7 @@ Definition bind {A B} (r : result A) (f : A -> result B) : result B :=
 Definition exn_eqb (a b : exn) : bool :=
   match a, b with
   | FileNotFound, FileNotFound | IOErr, IOErr | IndexError, IndexError
-  | ValueError, ValueError | TypeError, TypeError => true
+  | ValueError, ValueError | TypeError, TypeError | Blocked, Blocked => true
   | _, _ => false
   end.
 
